@@ -389,6 +389,9 @@ func checkC51(env *kernel.Env) {
 				kind, q = "drop-column", "ALTER TABLE docs DROP COLUMN x"
 			} else {
 				kind, q = "add-column", "ALTER TABLE docs ADD COLUMN x INT DEFAULT 0"
+				if T.Bool(1, 2) {
+					q += " FIRST" // the key column's position in the row moves
+				}
 			}
 		default: // a no-op update (nothing to index)
 			kind = "update-noop"
